@@ -38,6 +38,10 @@ func Tx(ctx *rpctypes.Context, hash []byte, prove bool) (*ctypes.ResultTx, error
 	var proof types.TxProof
 	if prove {
 		block := env.BlockStore.LoadBlock(height)
+		if block == nil {
+			// the tx index is not pruned with the block store
+			return nil, fmt.Errorf("cannot prove tx (%X): block %d is not in the block store", hash, height)
+		}
 		proof = block.Data.Txs.Proof(int(index)) // XXX: overflow on 32-bit machines
 	}
 
@@ -118,6 +122,11 @@ func TxSearch(
 		var proof types.TxProof
 		if prove {
 			block := env.BlockStore.LoadBlock(r.Height)
+			if block == nil {
+				// the tx index is not pruned with the block store
+				return nil, fmt.Errorf("cannot prove tx (%X): block %d is not in the block store",
+					types.Tx(r.Tx).Hash(), r.Height)
+			}
 			proof = block.Data.Txs.Proof(int(r.Index)) // XXX: overflow on 32-bit machines
 		}
 
